@@ -138,4 +138,25 @@ type Scalars struct {
 	MR  MyRune
 }
 
+// Emb embeds exported struct types by value and by pointer.
+type Emb struct {
+	vu.Pt
+	*Leaf
+	N int
+}
+
+// named container types
+type (
+	IDs  []MyInt
+	Dict map[MyStr]Leaf
+	Grid [2][2]int
+)
+
+type Named struct {
+	I IDs
+	D Dict
+	G Grid
+	E Emb
+}
+
 func (d *Deep) Hidden() int { return d.hidden }
